@@ -46,6 +46,10 @@ CHECKS = {
    text="The footprint contract is stated in Memory.tla over an abstract memory (no fault, canaries intact, no heap call, value still correct, checked index raises) and judged by TLC on every recorded call; the observation channel is native: operands and results of TLC-enumerated cases are placed flush against PROT_NONE pages (end side and start side), wrapped external buffers additionally at every byte misalignment 0..63 inside canary-filled pages, a SIGSEGV/SIGBUS handler and an interposed malloc family turn faults and allocations into recorded observations. Exercised: TensorMap copy / axpy / in-place scale / sum / inner / norm^2 / min / max / strided view read and write for sizes 1..20,31..35; matmul, matrix-vector and transpose kernels on owning tensors placed as whole objects; out-of-range scalar indices under FASTOR_ENABLE_RUNTIME_CHECKS=1.",
    note="Exploration, not model checking of memory safety: an over-read that stays inside mapped non-guard memory is invisible (DESIGN section 0). Kernel families beyond matmul/matvec/transpose are not placed against guard pages. The sanitizer build of the design is not built.",
    technique="TLA+ contract judged by TLC on traces recorded under guard pages, canaries and an allocation counter"),
+ "C06": dict(level=MC, design="3/C06",
+   text="A hash-sampled cross-section of the TLC-generated plans of the other checks (matrix product, element-wise expressions, permutations, lazy expressions, slice-write behaviours; thorough: also triangular product, einsum, reductions) is compiled and run under every configuration of a covering array over ISA (scalar, SSE2, SSE4.2, AVX, AVX2+FMA, AVX-512) x C++14/17 x -O0..-O3 x runtime checks x one documented tuning macro. TLC checks the array itself (Config.tla: every factor value, all ISA x std pairs; thorough: all ISA x opt and std x opt pairs and every macro under AVX2 and AVX-512) and the originating trace specification compares each case's outputs under ALL configurations with one L1 value, which for the exact data used is bit-identity across configurations. A translation unit that fails to compile in some configuration is a rejection (compile agreement). Only configuration-dependent rejections are C06 violations.",
+   note="Compiler axis is g++ 12 only. Floating results are compared exactly because the data are exact; inexact-data agreement within rounding is not exercised. The quick tier uses 12 configurations and ~400 cases; the thorough tier ~60 configurations.",
+   technique="TLC-checked covering array + TLC trace validation of joined multi-configuration traces"),
 }
 NA_REASON = "check not built yet (work in progress in this session; see DESIGN.md section 3 for the planned model)"
 
